@@ -58,10 +58,11 @@ Proof.
     destruct (read orc true b r p) as [[x b1] r1]. cbn [length]. f_equal. apply IH. }
   fold res in H1. rewrite H1, app_length, map_length, repeat_length in Hl.
   assert (Hn : 0 < n) by lia. rewrite H1. split.
-  - rewrite map_app, concat_app, map_map. cbn [fst]. rewrite map_id.
-    assert (Hz : concat (map fst (repeat (@nil N, true) n)) = []).
-    { clear. induction n as [|n IH]; [reflexivity|]. cbn. exact IH. }
-    rewrite Hz, app_nil_r. apply H3. exact Hn.
+  - assert (Hz : forall (ds : list chunk) m, concat (map fst (map (fun d : chunk => (d, false)) ds ++ repeat (@nil N, true) m)) = concat ds).
+    { clear. induction ds as [|d ds IH]; intros m.
+      - cbn [map app concat]. induction m as [|m IHm]; [reflexivity|]. cbn. exact IHm.
+      - cbn [map app concat fst]. f_equal. apply IH. }
+    rewrite Hz. apply H3. exact Hn.
   - destruct n as [|n]; [lia|]. clear. replace (repeat (@nil N, true) (S n)) with (repeat (@nil N, true) n ++ [([], true)]).
     + rewrite app_assoc. apply last_last.
     + induction n as [|n IH]; [reflexivity|]. cbn [repeat app]. f_equal. exact IH.
